@@ -116,8 +116,8 @@ def flush():
 def setup(concepts, spec):
     cap = CAP[spec['tier']]
     attach.attach_ctor(concepts)
-    om = concepts.lattice_members.OrderableMixin
-    rm = concepts.lattice_members.RelationsMixin
+    om = concepts.lattice_members.Concept
+    rm = concepts.lattice_members.Concept
     for p in PREDICATES:
         owner = om if p in ORDER else rm
         hits = attach.attach(owner, p, Pred(p, cap))
